@@ -79,6 +79,22 @@ func c19(e *Env) {
 				continue
 			}
 			n0++
+			// a read loop over a bufio.Reader (`for { line, err := rd.ReadString(..); ...; if err == io.EOF { break } }`)
+			// has no "every iteration sends": an iteration may deliver nothing. It is judged by the two reader scenarios
+			// below (text with error, text without error) instead.
+			if las := g.EnclLoops(n); len(las) > 0 {
+				inLoop := las[0].L.Blocks
+				reader := false
+				for _, m := range g.Nodes {
+					if m.IsCallTo("(*bufio.Reader).ReadString") && m.Ctx == las[0].At.Ctx && m.Instr != nil && inLoop[m.Instr.Block()] {
+						reader = true
+					}
+				}
+				if reader {
+					ob.OK(g.Where(n), "send inside a bufio.Reader read loop (judged by the reader scenarios)")
+					continue
+				}
+			}
 			okN, nLoops := e.everyIteration(ob, g, n, "the send")
 			if nLoops == 0 {
 				ob.Fail(g.Where(n), "the send is not inside a loop over the items")
@@ -90,6 +106,28 @@ func c19(e *Env) {
 		}
 		if n0 == 0 {
 			ob.Fail(core.FuncName(run), "the source never sends")
+		}
+		// a reader that delivers data together with its end-of-input error (bufio.Reader.ReadString: the last line of a
+		// file without a trailing newline comes with io.EOF): that data must still be sent
+		for _, n := range g.Nodes {
+			if !n.IsCallTo("(*bufio.Reader).ReadString") || n.Kind == core.KAfter {
+				continue
+			}
+			obE := r.Ob("R1", src+":data-with-EOF-sent", "text that the reader returns together with its end-of-input error (a last line without newline) is still sent")
+			res := g.Run(core.Scenario{Start: n, Result: core.TupleAV(core.StrAV("x"), core.NonNilAV(core.ErrAny))})
+			isSend := func(m *core.Node) bool { _, ok := isPortSend(m); return ok }
+			if w := res.ReachesAvoiding(func(m *core.Node) bool { return m.Kind == core.KRootRet }, isSend); w != nil {
+				obE.Fail(g.Where(n), "when ReadString returns text together with an error (io.EOF after a last line without newline), Run can finish without sending that text: the last item is silently dropped")
+			} else {
+				obE.OK(g.Where(n), "text returned with an error is sent (or the error is fatal) on every path")
+			}
+			obL := r.Ob("R1", src+":every-line-sent", "a line the reader returns without error is sent before the next read")
+			res2 := g.Run(core.Scenario{Start: n, Result: core.TupleAV(core.StrAV("x\n"), core.NilAV())})
+			if w := res2.ReachesAvoiding(func(m *core.Node) bool { return m.Kind == core.KRootRet || m == n }, isSend); w != nil {
+				obL.Fail(g.Where(n), "after ReadString returned a line without error, the next read or the end of Run can be reached without sending it")
+			} else {
+				obL.OK(g.Where(n), "a line read without error is sent before the next read")
+			}
 		}
 	}
 	// ---- R2 combinators
